@@ -163,7 +163,9 @@ class Trend(BaseGridder):
         shape = np.broadcast(*coordinates[:2]).shape
         # Use a floating point type for the predictions even if the
         # coordinates are integers
-        dtype = np.result_type(easting.dtype, "float32")
+        dtype = np.result_type(easting.dtype, northing.dtype, "float32")
+        # Calculate the powers in floating point to avoid integer overflow
+        easting, northing = easting.astype(dtype), northing.astype(dtype)
         data = np.zeros(easting.size, dtype=dtype)
         combinations = polynomial_power_combinations(self.degree)
         for coef, (i, j) in zip(self.coef_, combinations):
@@ -215,6 +217,9 @@ class Trend(BaseGridder):
         easting, northing = n_1d_arrays(coordinates, 2)
         if easting.shape != northing.shape:
             raise ValueError("Coordinate arrays must have the same shape.")
+        # Calculate the powers in floating point to avoid integer overflow
+        easting = easting.astype(np.result_type(easting.dtype, "float32"))
+        northing = northing.astype(np.result_type(northing.dtype, "float32"))
         combinations = polynomial_power_combinations(self.degree)
         ndata = easting.size
         nparams = len(combinations)
